@@ -23,7 +23,7 @@ ALIASES = {
 }
 
 BUILTINS = ('len', 'range', 'abs', 'isinstance', 'enumerate', 'list', 'set', 'int', 'float', 'iter', 'str',
-            'print', 'tuple', 'min', 'max', 'sum', 'zip', 'object', 'type', 'hasattr', 'getattr', 'id', 'any', 'all', 'frozenset', 'bool', 'sorted',
+            'print', 'tuple', 'min', 'max', 'sum', 'zip', 'object', 'type', 'hasattr', 'getattr', 'id', 'any', 'all', 'frozenset', 'bool', 'sorted', 'setattr', 'reversed',
             'ValueError', 'TypeError', 'KeyError', 'NotImplementedError', 'AssertionError', 'ImportError',
             'DeprecationWarning', 'Exception', 'dict')
 
@@ -653,7 +653,10 @@ def sp_root(ip, args, kwargs, node):
     ip.sym_kind['root_iter'] = 'curve'
     xi = Arr(N.sym('root_iter'), 'root-callback-arg', ip)
     xi.fresh = False
-    ip.notes.append(('root', {'loc': ip.loc(node), 'callback': f}))
+    ip.notes.append(('root', {'loc': ip.loc(node), 'callback': f, 'x0': x0,
+                              'method': args[3] if len(args) > 3 else kwargs.get('method'),
+                              'options': kwargs.get('options'), 'jac': kwargs.get('jac'), 'tol': kwargs.get('tol'),
+                              'extra': sorted(set(kwargs) - {'fun', 'x0', 'method', 'options', 'jac', 'tol', 'args', 'callback'})}))
     ip.event('root-call', 'scipy.optimize.root', node)
     ip.call(f, [xi], {}, node)
     ip.event('root-return', 'scipy.optimize.root', node)
@@ -1065,6 +1068,56 @@ def b_hasattr(ip, args, kwargs, node):
     raise Unsupported('hasattr on %r' % (o,), node)
 
 
+def b_setattr(ip, args, kwargs, node):
+    if len(args) != 3:
+        raise Raised('TypeError', 'setattr expected 3 arguments', ip.loc(node))
+    o, nm, v = args
+    if not (isinstance(nm, Const) and isinstance(nm.v, str)):
+        raise Unsupported('setattr with a computed name', node)
+    ip.set_attr(o, nm.v, v, node)
+    return NONE
+
+
+def b_reversed(ip, args, kwargs, node):
+    x = args[0]
+    if isinstance(x, Seq) and x.kind in ('list', 'tuple', 'range'):
+        return Seq(list(reversed(x.items)), 'iterator')
+    if isinstance(x, Const) and isinstance(x.v, str):
+        return Seq([Const(c) for c in reversed(x.v)], 'iterator')
+    raise Unsupported('reversed(%r)' % (x,), node)
+
+
+def b_sorted(ip, args, kwargs, node):
+    x = args[0]
+    if kwargs and set(kwargs) - {'reverse'}:
+        raise Unsupported('sorted with a key function', node)
+    if isinstance(x, Seq) and all(isinstance(i, Const) for i in x.items):
+        try:
+            items = sorted(take_items(x), key=lambda c: c.v)
+        except TypeError:
+            raise Raised('TypeError', 'unorderable items in sorted()', ip.loc(node))
+        rv = kwargs.get('reverse')
+        if isinstance(rv, Const) and rv.v:
+            items.reverse()
+        return Seq(items, 'list')
+    raise Unsupported('sorted(%r)' % (x,), node)
+
+
+def b_zip(ip, args, kwargs, node):
+    cols = []
+    for a in args:
+        if isinstance(a, Const) and isinstance(a.v, str):
+            cols.append([Const(c) for c in a.v])
+        elif isinstance(a, Types):
+            raise Unsupported('zip over the symbolic type list', node)
+        elif isinstance(a, Seq):
+            cols.append(take_items(a))
+        else:
+            raise Unsupported('zip over %r' % (a,), node)
+    n = min(len(c) for c in cols) if cols else 0
+    return Seq([Seq([c[i] for c in cols]) for i in range(n)], 'list')
+
+
 def b_getattr(ip, args, kwargs, node):
     o, nm = args[0], args[1]
     if not (isinstance(nm, Const) and isinstance(nm.v, str)):
@@ -1371,7 +1424,7 @@ CALLS = {
     'itertools.product': it_product, 'itertools.combinations': it_combinations(False),
     'itertools.combinations_with_replacement': it_combinations(True),
     'warnings.warn': w_warn,
-    'builtins.len': b_len, 'builtins.range': b_range, 'builtins.abs': b_abs, 'builtins.sum': b_sum, 'numpy.size': np_size, 'numpy.finfo': np_finfo, 'numpy.identity': np_identity, 'numpy.eye': np_identity,
+    'builtins.len': b_len, 'builtins.range': b_range, 'builtins.abs': b_abs, 'builtins.sum': b_sum, 'builtins.setattr': b_setattr, 'builtins.zip': b_zip, 'builtins.reversed': b_reversed, 'builtins.sorted': b_sorted, 'numpy.size': np_size, 'numpy.finfo': np_finfo, 'numpy.identity': np_identity, 'numpy.eye': np_identity,
     'operator.lt': op_fn('cmp', 'Lt'), 'operator.le': op_fn('cmp', 'LtE'), 'operator.gt': op_fn('cmp', 'Gt'), 'operator.ge': op_fn('cmp', 'GtE'),
     'operator.eq': op_fn('cmp', 'Eq'), 'operator.ne': op_fn('cmp', 'NotEq'), 'operator.add': op_fn('bin', 'Add'), 'operator.sub': op_fn('bin', 'Sub'),
     'operator.mul': op_fn('bin', 'Mult'), 'operator.truediv': op_fn('bin', 'Div'), 'builtins.max': b_minmax('max'), 'builtins.min': b_minmax('min'),
